@@ -493,7 +493,7 @@ class TimeSeriesCausalGraph(CausalGraph):
                             source=lagged_source_node,
                             destination=lagged_destination_node,
                             edge_type=edge.get_edge_type(),
-                            meta=edge.meta,
+                            meta=deepcopy(edge.meta),
                             validate=False,
                         )
 
@@ -545,7 +545,7 @@ class TimeSeriesCausalGraph(CausalGraph):
                         source=extended_graph.get_node(lagged_source.identifier),
                         destination=extended_graph.get_node(lagged_dest.identifier),
                         edge_type=edge.get_edge_type(),
-                        meta=edge.meta,
+                        meta=deepcopy(edge.meta),
                         validate=False,
                     )
 
